@@ -139,10 +139,15 @@ func addLeaf(t Tree, r *Route, s *Segment, h Handler) (Leaf, error) {
 				return nil, errors.Wrap(err, "add optional leaf to grandparent")
 			}
 		} else {
-			_, err = addLeaf(parent, r, parent.getSegment(), h)
+			// The parent is the root tree which has no segment, the route without its
+			// optional segment is "/", i.e. a leaf derived from an empty segment.
+			_, err = addLeaf(parent, r, &Segment{Pos: s.Pos}, h)
 			if err != nil {
 				return nil, errors.Wrap(err, "add optional leaf to parent")
 			}
+
+			// The leaf has been added to the same tree, reload the list.
+			leaves = t.getLeaves()
 		}
 	}
 
